@@ -69,6 +69,11 @@ RemoveH(h) ==
     /\ obs' = NoObs
     /\ UNCHANGED <<width, now, peers, phase, ongoing, timedOut, promised, hiPrunable, numPrunable, blk>>
 
+(* ---- environment: time ---- *)
+\* the clock moves: blocks leave the sampling window while they wait in the queue
+Tick == /\ now' = now + 1 /\ obs' = NoObs
+        /\ UNCHANGED <<stored, sampledS, meta, width, peers, phase, queue, ongoing, timedOut, promised, headH, hiPrunable, numPrunable, blk>>
+
 (* ---- environment: peers ---- *)
 Connect ==
     /\ peers = 0 /\ peers' = 1
